@@ -5,6 +5,7 @@ import (
 	"encoding/json"
 	"fmt"
 	"io"
+	"strconv"
 	"strings"
 	"time"
 
@@ -66,6 +67,22 @@ func c14agreeChild(raw json.RawMessage, scratch string) {
 		cmds := genStream(rng, streamOpts{N: cs.N, DBs: cs.DBs, Modelled: true, Tx: true, Keys: 4, StartDB: startDB})
 		if startDB < 0 {
 			startDB = 0
+		}
+		if i%3 == 0 {
+			// the stream ends with a transaction that switches to a database nothing was written to before: the last
+			// batch starts in a database that already has its run id and ends in one that has none yet
+			fresh := 7 + i%4
+			last := cmds[len(cmds)-1]
+			tail := []srcCmd{{Name: "MULTI", DB: last.DB}, {Name: "SET", Args: [][]byte{[]byte("key0"), []byte("in-old-db")}, DB: last.DB, InTx: true},
+				{Name: "SELECT", Args: [][]byte{[]byte(strconv.Itoa(fresh))}, DB: fresh, InTx: true},
+				{Name: "SET", Args: [][]byte{[]byte("key1"), []byte("in-fresh-db")}, DB: fresh, InTx: true}, {Name: "EXEC", DB: fresh}}
+			pos := last.End
+			for k := range tail {
+				pos += int64(len(encodeCmd(&tail[k])))
+				tail[k].End = pos
+			}
+			cmds = append(cmds, tail...)
+			r.Count("agreement_streams_ending_in_a_fresh_database_inside_a_transaction", 1)
 		}
 		for k := len(cmds) - 6; k < len(cmds); k++ {
 			if k >= 0 {
